@@ -175,6 +175,13 @@ Definition dispatch_ref (cmd : bytes) (args : list bytes) : option bytes :=
                                end
                   | None => err "bad hex" end
          | _ => err "arity" end
+  else if beqb cmd (str "parsebool") then
+    (* parsebool <hex value>: strconv.ParseBool -> true | false | ERR *)
+    Some match args with
+         | [a] => match unhxb a with
+                  | Some aa => match parse_bool aa with Some b => bool_b b | None => str "ERR" end
+                  | None => err "bad hex" end
+         | _ => err "arity" end
   else if beqb cmd (str "rune") then
     (* rune <hex bytes>: what utf8.DecodeRune makes of the beginning of the bytes: "<code point> <width>" *)
     Some match args with
